@@ -57,6 +57,10 @@ class PendingNamedExpr(PendingExprGeneric[NamedExpr]):
 
     def get_result(self) -> expr:
         assert self.value is not None
+        for comp in self.nsp.comp_stack:
+            if isinstance(comp, PendingLambda):
+                # inside a lambda the target is a local name of the lambda
+                return NamedExpr(target=self.node.target, value=self.value)
         result = self.nsp.get_assign(self.node.target.id, self.value)
         if not isinstance(result, NamedExpr):
             result = Subscript(
@@ -151,8 +155,26 @@ class PendingLambda(PendingExprGeneric[Lambda]):
             self.target_names.add(args.vararg.arg)
         if args.kwarg is not None:
             self.target_names.add(args.kwarg.arg)
+        # the target of an assignment expression is a local name of the lambda too
+        self.target_names.update(self._get_walrus_target_names(node.body))
 
         self.iter_fields = self._iter_fields()
+
+    @staticmethod
+    def _get_walrus_target_names(body: expr) -> set[str]:
+        names: set[str] = set()
+        todo: list[AST] = [body]
+        while todo:
+            _node = todo.pop()
+            if isinstance(_node, Lambda):
+                # belongs to the inner lambda
+                todo.extend(_node.args.defaults)
+                todo.extend(d for d in _node.args.kw_defaults if d is not None)
+                continue
+            if isinstance(_node, NamedExpr):
+                names.add(_node.target.id)
+            todo.extend(iter_child_nodes(_node))
+        return names
 
     def _iter_fields(self):
         args = self.node.args
